@@ -55,9 +55,48 @@ Theorem C04_dedup_next : forall l d ds,
 Proof. exact dedup_next_is_highest_plus_one. Qed.
 Print Assumptions C04_dedup_next.
 
+(** [smallest_missing_in_interval(l, u)] (used to decide on immediate ACKs) is exact with respect
+    to the abstract membership [seen] (inserted, or left of the window): it returns the smallest
+    number strictly between the bounds that has not been seen, [None] if there is none; and it
+    never panics when its documented preconditions hold. [missing_in_interval] is its [is_some]. *)
+Theorem C04_dedup_smallest_missing_exact : forall d l u r,
+  0 <= l ->
+  smallest_missing d l u = Some r ->
+  match r with
+  | None => forall m, l < m < u -> seen d m = true
+  | Some q => l < q < u /\ seen d q = false /\ forall m, l < m < q -> seen d m = true
+  end.
+Proof. exact smallest_missing_exact. Qed.
+Print Assumptions C04_dedup_smallest_missing_exact.
+
+Theorem C04_dedup_smallest_missing_total : forall d l u,
+  0 <= l -> l <= u -> 1 <= next d -> u <= next d - 1 -> smallest_missing d l u <> None.
+Proof. exact smallest_missing_total. Qed.
+Print Assumptions C04_dedup_smallest_missing_total.
+
+(** [seen] is what [insert] answers, and for a state reached by inserting the numbers [l] it is
+    exactly "inserted before, or left of the window". *)
+Theorem C04_dedup_seen_is_insert_answer : forall d p d' dup,
+  insert d p = Some (d', dup) -> dup = seen d p.
+Proof. exact insert_dup. Qed.
+Print Assumptions C04_dedup_seen_is_insert_answer.
+
+Theorem C04_dedup_seen_spec : forall l d ds,
+  Forall (fun p => 0 <= p) l ->
+  inserts Dedup.init l = Some (d, ds) ->
+  forall m, 0 <= m ->
+    seen d m = Dedup.mem m l || (m + Constants.DEDUP_WINDOW_SIZE <=? maxl l).
+Proof. exact seen_spec. Qed.
+Print Assumptions C04_dedup_seen_spec.
+
 (** Non-vacuity: a jump of 200, a late arrival inside the window, one left of it, a replay. *)
 Example C04_dedup_example :
   inserts Dedup.init [0; 1; 3; 203; 100; 74; 75; 3; 100; 204; 75] =
   Some (Dedup.mk (2 ^ 103 + 1) 205,
         [false; false; false; false; false; true; false; true; true; false; true]).
 Proof. vm_compute. reflexivity. Qed.
+Example C04_dedup_query_example :
+  smallest_missing (Dedup.mk (2 ^ 103 + 1) 205) 100 203 = Some (Some 101) /\
+  smallest_missing (Dedup.mk (2 ^ 103 + 1) 205) 3 100 = Some (Some 76) /\
+  smallest_missing (Dedup.mk (2 ^ 103 + 1) 205) 203 204 = Some None.
+Proof. vm_compute. repeat split; reflexivity. Qed.
